@@ -40,3 +40,30 @@ func TestC08SliceDropsExtentOneAxis(t *testing.T) {
 	}
 	t.Logf("Slice [1:2,0:4] of 3x4 has shape %v, ONNX says (1,4)", out[0].Shape())
 }
+
+// C08 known finding R19:Slice:step-count — along axis 0 gorgonia rounds the number of selected elements down.
+func TestC08SliceStepCountRoundedDown(t *testing.T) {
+	x := tensor.New(tensor.WithShape(10), tensor.WithBacking(tensor.Range(tensor.Float32, 0, 10)))
+	out, err, p := apply(t, "Slice", nil, x, i64(0), i64(10), i64(0), i64(3))
+	if err != nil || p != nil {
+		t.Fatalf("unexpected: %v %v", err, p)
+	}
+	if out[0].Shape().TotalSize() == 4 {
+		t.Fatal("defect no longer present: [0:10:3] selects 4 elements")
+	}
+	t.Logf("Slice [0:10:3] of [0..9] = %v, ONNX says [0 3 6 9]", out[0].Data())
+}
+
+// C08 known finding R19:Slice:empty-range — an empty range yields an element.
+func TestC08SliceEmptyRangeYieldsElement(t *testing.T) {
+	x := tensor.New(tensor.WithShape(10), tensor.WithBacking(tensor.Range(tensor.Float32, 0, 10)))
+	out, err, p := apply(t, "Slice", nil, x, i64(2), i64(2))
+	if err != nil || p != nil {
+		t.Logf("now refused: %v %v", err, p)
+		t.Fatal("defect no longer present: the empty range is refused")
+	}
+	if out[0].Shape().TotalSize() == 0 {
+		t.Fatal("defect no longer present: the empty range yields an empty tensor")
+	}
+	t.Logf("Slice [2:2] of [0..9] = %v (shape %v), ONNX says an empty tensor", out[0].Data(), out[0].Shape())
+}
